@@ -1129,8 +1129,8 @@ fn main() {
     }
     if args.case.is_none() {
         let mut rng = Rng::new(args.seed);
-        let n = args.n.unwrap_or(if args.thorough() { 4000 } else { 400 });
-        let per = if args.thorough() { 30 } else { 12 };
+        let n = args.n.unwrap_or(if args.thorough() { 3000 } else { 400 });
+        let per = if args.thorough() { 24 } else { 12 };
         for i in 0..n {
             let mut r = rng.fork();
             let app = gen_app(&mut r, if i % 7 == 0 { 4 } else { 3 });
